@@ -138,6 +138,9 @@ struct Local
 	unsigned long ticket = 0;		// compare value of the last CAS this thread won
 	char park = 0;				// kind of the yield point the coroutine is parked at
 };
+// free-running mode (real threads, no coroutine): this thread sleeps stall_ms in front of its
+// stall_at-th publishing store (ticket taken, lane not yet released)
+static thread_local long t_stall_ms = 0, t_stall_at = 0;
 
 // one coroutine per model thread
 struct Fiber
@@ -225,6 +228,8 @@ static inline void verif_set(atomic_long_t *l, long i)
 {
 	verif_yield();
 	if (g_log) tok('w', static_cast<unsigned long>(i));
+	if (!g_sched && t_stall_ms && --t_stall_at == 0)
+		std::this_thread::sleep_for(std::chrono::milliseconds(t_stall_ms));	// a descheduled participant
 	atomic_long_set(l, i);
 }
 struct verif_slot : public uSWSR_Ptr_Buffer
@@ -598,7 +603,7 @@ static std::string run_slot(unsigned long size, const std::string& ops)
 }
 
 //-------------------------------------------------------------------------------------------------
-static std::string run_free(int np, int nc, unsigned long ops, unsigned long nq)
+static std::string run_free(int np, int nc, unsigned long ops, unsigned long nq, long stall_ms = 0)
 {
 	g_sched = false;
 	g_abort.store(false);
@@ -612,6 +617,9 @@ static std::string run_free(int np, int nc, unsigned long ops, unsigned long nq)
 	std::vector<std::thread> thr;
 	for (int p(0); p < np; ++p)
 		thr.emplace_back([&, p] {
+			// stall class: producer 0 is held for stall_ms between taking a ticket and releasing its lane
+			t_stall_ms = p == 0 ? stall_ms : 0;
+			t_stall_at = 3;
 			while (!go.load()) sched_yield();
 			try
 			{
@@ -648,7 +656,7 @@ static std::string run_free(int np, int nc, unsigned long ops, unsigned long nq)
 			catch (const Abandon&) {}
 			running.fetch_sub(1);
 		});
-	g_deadline = std::chrono::steady_clock::now() + std::chrono::seconds(15 + total / 20000);
+	g_deadline = std::chrono::steady_clock::now() + std::chrono::seconds(15 + total / 20000) + std::chrono::milliseconds(stall_ms);
 	go.store(true);
 	while (running.load() > 0)
 	{
@@ -811,7 +819,11 @@ int main()
 			{
 				int np, nc; unsigned long ops, nq;
 				is >> np >> nc >> ops >> nq;
-				out = run_free(np, nc, ops, nq);
+				long stall_ms(0);
+				std::string w;
+				while (is >> w)
+					if (w.compare(0, 6, "stall=") == 0) stall_ms = std::stol(w.substr(6));
+				out = run_free(np, nc, ops, nq, stall_ms);
 			}
 			else
 				out = "BAD-CASE";
